@@ -46,7 +46,7 @@ MethodsA == <<"GET", "HEAD", "POST", "OPTIONS", "TRACE", "BOGUS", "">>
 \* ---------------- pool B: >= 5 literal siblings (first-byte index), top-level literals without '/'
 LitB  == {"/s/a", "/s/b", "/s/c", "/s/d", "/s/e", "/s/f", "/s/g"}
 TopB  == {"a", "b", "c", "d", "e", "f"}
-PatsB == LitB \cup TopB \cup {"/s/{id}", "/s/{n:\\d+}", "{top}", "/s/{id}/t", "/s/{k:digit}/t/{r}"}
+PatsB == LitB \cup TopB \cup {"/s/{id}", "/s/{n:\\d+}", "{top}", "/s/{id}/t", "/s/{k:digit}/t/{r}", "/s/{uid}/t"}
 HOpsB == {H(p, ms) : p \in PatsB, ms \in {G, P}}
 ROpsB == {Rm(p, ms) : p \in PatsB, ms \in {<<>>, G}}
 COpsB == {Cl(""), Cl("/s/"), Cl("/s/a"), Cl("a")}
@@ -56,13 +56,16 @@ BaseB1 == <<H("/s/a", G), H("/s/b", G), H("/s/c", G), H("/s/d", G), H("/s/e", G)
 BaseB2 == <<H("a", G), H("b", G), H("c", G), H("d", G), H("e", G), H("f", G), H("{top}", G)>>
 BaseB3 == <<H("/s/{id}", G), H("/s/a", G), H("/s/b", G), H("/s/c", G), H("/s/d", G), H("/s/e", G), H("/s/f", G)>>
 BaseB4 == BaseB1 \o <<H("/s/{id}/t", G), H("/s/{k:digit}/t/{r}", G)>>
-BasesB == {BaseB1, BaseB2, BaseB3, BaseB4, BaseB1 \o BaseB2}
+\* a differently named parameter with a sub-tree sorts right after the literals: reached through the first-byte index it
+\* captures, fails below, and must leave nothing behind
+BaseB5 == <<H("/s/a", G), H("/s/b", G), H("/s/c", G), H("/s/d", G), H("/s/e", G), H("/s/f", G), H("/s/g", G), H("/s/{uid}/t", G), H("/s/{id}", G)>>
+BasesB == {BaseB1, BaseB2, BaseB3, BaseB4, BaseB5, BaseB1 \o BaseB2}
 ProbesB == <<W("/s/a", <<>>), W("/s/b", <<>>), W("/s/c", <<>>), W("/s/d", <<>>), W("/s/e", <<>>), W("/s/f", <<>>), W("/s/g", <<>>),
              W("/s/{id}", [id |-> "7q"]), W("/s/{n:\\d+}", [n |-> "77"]), W("{top}", [top |-> "7q"]),
              W("a", <<>>), W("b", <<>>), W("c", <<>>), W("d", <<>>), W("e", <<>>), W("f", <<>>),
              W("/s/{id}/t", [id |-> "7q"]), W("/s/{k:digit}/t/{r}", [k |-> "77", r |-> "8w"]),
              A("/s/zz"), A("/s/ab"), A("/s/"), A("/s/a/"), A("/s/h"), A("fz"), A("g"), A("/"), A(""), A("*"),
-             A("/s/g7/t"), A("/s/g7/zz"), A("/s/a7/t"), A("/s/a/t"), A("/s/f1/t/zz"), A("/s/77/t"), A("/s/g"), A("/s/g/t/")>>
+             W("/s/{uid}/t", [uid |-> "7q"]), A("/s/g7/t/zz"), A("/s/a7/t/zz"), A("/s/g7/t"), A("/s/g7/zz"), A("/s/a7/t"), A("/s/a/t"), A("/s/f1/t/zz"), A("/s/77/t"), A("/s/g"), A("/s/g/t/")>>
 MethodsB == <<"GET", "HEAD", "POST", "OPTIONS", "BOGUS">>
 
 \* ---------------- pool C: splits around existing nodes, Allow sets, TRACE option
